@@ -397,7 +397,7 @@ def run(prog, chk, tier):
         "result parses with valid integrity is C03/C04.")
     chk.trusted += ["rustc MIR", "Vec/SmallVec push semantics", "Iterator::find/any semantics", "spec table in pylib/rules/c11.py"]
     from rules import content_e2 as CE
-    CE.adders(prog, chk)
+    CE.adders(prog, chk, ks=(0, 1, 2, 3) if tier == "thorough" else (0, 1, 2))
     CE.build_side(prog, chk, rule="add_message_integrity-pushes")
     CE.fingerprint_build(prog, chk, rule="add_fingerprint-pushes")
     who_may_write(prog, chk)
